@@ -157,7 +157,23 @@ pub fn expr_into_reward_account(
     let address = expr_into_address(expr, network)?;
 
     let hash_bytes = match address {
-        pallas::ledger::addresses::Address::Shelley(x) => x.delegation().to_vec(),
+        pallas::ledger::addresses::Address::Shelley(x) => {
+            // a reward account is the stake address of the delegation part: header
+            // (0b1110 key / 0b1111 script, then the network nibble) followed by the hash
+            let header = match x.delegation() {
+                pallas::ledger::addresses::ShelleyDelegationPart::Key(_) => 0b1110_0000,
+                pallas::ledger::addresses::ShelleyDelegationPart::Script(_) => 0b1111_0000,
+                _ => {
+                    return Err(Error::FormatError(
+                        "can't convert address to reward account".to_string(),
+                    ))
+                }
+            };
+
+            let mut bytes = vec![header | (x.network().value() & 0b0000_1111)];
+            bytes.extend(x.delegation().to_vec());
+            bytes
+        }
         pallas::ledger::addresses::Address::Stake(x) => x.to_vec(),
         _ => {
             return Err(Error::FormatError(
